@@ -19,9 +19,9 @@ git apply "$patch" || { echo "PATCH DOES NOT APPLY"; exit 1; }
 go build ./... > build.log 2>&1 || { echo "DOES NOT BUILD"; tail -5 build.log; exit 1; }
 go test -count=1 ./x/... > tests.log 2>&1 || { echo "EXISTING TESTS FAIL WITH CHANGE"; grep -E "^(--- FAIL|FAIL)" tests.log | head; exit 1; }
 cp "$demo" "$place"
-if go test -count=1 -run "^${tname}\$" "$pkg" > demo_with.log 2>&1; then echo "DEMO PASSES WITH CHANGE (should fail)"; exit 1; fi
+if go test -count=1 -run "^(${tname})\$" "$pkg" > demo_with.log 2>&1; then echo "DEMO PASSES WITH CHANGE (should fail)"; exit 1; fi
 grep -q "^--- FAIL" demo_with.log || { echo "DEMO did not fail as a test (build error?)"; tail -8 demo_with.log; exit 1; }
 rm -f "$place"; git checkout -- . ; cp "$demo" "$place"
-go test -count=1 -run "^${tname}\$" "$pkg" > demo_without.log 2>&1 || { echo "DEMO FAILS WITHOUT CHANGE"; tail -8 demo_without.log; exit 1; }
+go test -count=1 -run "^(${tname})\$" "$pkg" > demo_without.log 2>&1 || { echo "DEMO FAILS WITHOUT CHANGE"; tail -8 demo_without.log; exit 1; }
 grep -q "^ok" demo_without.log || { echo "DEMO not run without change"; exit 1; }
 echo "CONFIRMED $L: builds, existing tests pass, demo $tname fails with change and passes without"
